@@ -59,45 +59,17 @@ func (h *hist) line(op, obs string) {
 	if !h.tied {
 		return
 	}
-	if h.rootOnly && !strings.HasPrefix(op, "blkq ") && !strings.HasPrefix(op, "drop ") {
+	if h.rootOnly && !strings.HasPrefix(op, "blkq ") && !strings.HasPrefix(op, "dropold ") {
 		return
 	}
 	h.o.Line(op, obs)
 }
 
-// storeAfterDrop: the oracle failures on the NODE STORE that the known defect (DESIGN §6 item 11)
-// produces after a dropped block whose effect on the trie contents is predictable (the module's
-// trie becomes the dropped block's trie, the shared refcount map keeps the dropped block's cached
-// counts, the dropped block's nodes were never stored): wrong counts, missing nodes, left-over or
-// early deactivated records, and reads that fail on them. Everything else — a read returning a wrong
-// value, contents differing from the as-built contents, malformed records, a store touched before
-// the commit — is NOT a consequence of it and is reported under its own key.
-var storeAfterDrop = map[string]bool{
-	"count-mismatch": true, "latest:node-missing": true, "retained:node-missing": true,
-	"reachable-inactive": true, "garbage-node": true, "unreachable-active": true,
-	"retained:early-inactive": true, "retained-get-mismatch": true, "retained-find-mismatch": true,
-}
-
-// fail reports an oracle failure. After a dropped block every failure key is reported once per
-// case; the consequences of the known defect are folded into its keys: uncommitted-block:root,
-// uncommitted-block:panic, uncommitted-block:store:<oracle> (storeAfterDrop), and — only when the
-// dropped block's effect on the contents is outside the model — the coarse uncommitted-block:wild.
+// fail reports an oracle failure. In the self-test mode that omits DropMPTBatch (dropWithoutReload)
+// every failure key is reported once per case after a dropped block (the state is then corrupt in
+// the way Props/C11 uncommitted_block_leaves_phantom describes); nothing is folded into known keys.
 func (h *hist) fail(key string, format string, a ...any) {
 	if h.afterDrop {
-		switch {
-		case key == "root-mismatch":
-			key = "uncommitted-block:root"
-		case key == "panic-in-block" || key == "error-in-block":
-			key = "uncommitted-block:panic"
-		case strings.HasPrefix(key, "harness-") || key == "read-panic" || key == "gc-left-node" ||
-			key == "gc-layering-mismatch" || key == "node-bad-suffix" || key == "inactive-future-height":
-			// never a consequence
-		case h.dropWild:
-			format = "(" + key + ") " + format
-			key = "uncommitted-block:wild"
-		case storeAfterDrop[key]:
-			key = "uncommitted-block:store:" + key
-		}
 		if h.dropKeys == nil {
 			h.dropKeys = map[string]bool{}
 		}
@@ -339,8 +311,37 @@ func (h *hist) checkLeak(idx uint32) {
 	}
 }
 
-// drop computes a block and never commits it.
+// drop computes a block and never commits it: AddMPTBatch, (persist tick,) DropMPTBatch — what
+// storeBlock does when it fails after AddMPTBatch. It must leave no trace: the store is unchanged
+// byte for byte and everything afterwards is checked against the contents WITHOUT the dropped block.
 func (h *hist) drop(idx uint32, ops []subop) {
+	if dropWithoutReload {
+		h.dropOld(idx, ops)
+		return
+	}
+	h.prePersist()
+	root, obs := h.m.Block(idx, ops, false)
+	h.checkLeak(idx)
+	h.o.Count("drop")
+	if obs != "" {
+		h.dead = true
+		h.fail("panic-in-block", "dropped block %d: %s", idx, obs)
+		return
+	}
+	if rr := refRoot(applyOps(h.cont, ops)); rr != root {
+		h.fail("dropped-root-mismatch", "dropped block %d: AddMPTBatch returned root %s, a fresh trie with those contents has %s", idx, root.StringBE(), rr.StringBE())
+	}
+	h.line(fmt.Sprintf("drop %d %s", idx, subStr(ops)), "r="+hex.EncodeToString(root[:]))
+	if x, ok := h.m.(*modM); ok && x.tickObs != "" {
+		h.notePersist(x.tickObs)
+	}
+	if cur := h.m.View(); !sameView(cur, h.last) {
+		h.o.Fail("addmptbatch-writes-through", h.k, "[%s/%s] dropped block %d changed the node store below the cache", h.m.Name(), h.mode, idx)
+	}
+}
+
+// dropOld: self-test mode (dropWithoutReload): the block is simply not committed.
+func (h *hist) dropOld(idx uint32, ops []subop) {
 	inMem := h.m.CanDrop() && rootIsBranch(h.cont) && rootIsBranch(applyOps(h.cont, ops))
 	h.prePersist()
 	root, obs := h.m.Block(idx, ops, false)
@@ -367,7 +368,7 @@ func (h *hist) drop(idx uint32, ops []subop) {
 		h.fail("panic-in-block", "dropped block %d: %s", idx, obs)
 		return
 	}
-	h.line(fmt.Sprintf("drop %d %s", idx, subStr(ops)), "r="+hex.EncodeToString(root[:]))
+	h.line(fmt.Sprintf("dropold %d %s", idx, subStr(ops)), "r="+hex.EncodeToString(root[:]))
 	if x, ok := h.m.(*modM); ok && x.tickObs != "" {
 		h.notePersist(x.tickObs)
 	}
